@@ -36,14 +36,28 @@ LEVEL_TEXT = ("Theorems (Coq): number of uniforms consumed by every sampler as a
               "u -> output is strictly increasing, i.e. the output has the uniform distribution function GIVEN that the canonical deviate is uniform on [0,1) (a property of std::mt19937/generate_canonical, "
               "tested, not proved). Still not theorems: the symmetry of the proposal displacement (Inv_Erf is a root-finder; with it and the proved detailed balance of the acceptance the stationarity of the target "
               "would follow) and the laws of the Sample_Gauss / Sample_Poisson / inverse-transform / rejection / Metropolis outputs. Rejection_Sampling(_2D) terminates (C18_rejection_terminates, every number type, every density): a generator that can deliver 2*9999 (3*9999) uniforms is never exhausted, the call returns or aborts at the 10000th trial. Non-vacuity examples are collected in C18_examples. "
+              "SEVENTH PASS (coverage/C18.md lists what is in the model): (1) the GENERATOR is inside the model: std::mt19937 (seeding, state regeneration, tempering) and "
+              "std::generate_canonical<double,53> are Gallina functions (C18_Model2.v: mt_seed, mt_next, canon, mt_stream), compared with libstdc++ on seqg cases that carry no uniforms (the model runs the "
+              "history from the seed or from prescribed state words and also reports the next raw output). Theorems: every state reachable from a seed is 624 32-bit words and every raw output a 32-bit word "
+              "(C18_generator_seed_state, C18_generator_step), the 10000th output of the default seed is the value the C++ standard prescribes (C18_generator_is_mt19937), over R every canonical uniform of "
+              "every such state lies in [0,1) (C18_generator_uniforms_in_unit_interval), so the containment theorems hold for every SEED without a premise on the stream "
+              "(C18_metropolis_in_domain_from_seed, C18_sample_uniform_range_from_seed); a history run from a generator state leaves behind the state advanced by two raw outputs per canonical draw, the "
+              "number of draws is the sum of the calls' costs and the unread part of the stream is the stream of the state left behind (C18_generator_state_left_behind, C18_generator_stream_splits; every "
+              "number type). (2) the ACCEPTANCE STATISTIC of Sample_Metropolis(_2D) (average acceptance probability, efficiency warning) is in the model (sample_metropolis_w, _2d_w) and compared on seqw "
+              "cases (the warning is read back from std::cerr): it is bookkeeping only -- samples, residual stream and failures are those of the sampler without it, for every number type "
+              "(C18_metropolis_statistic_is_transparent, _2d_) -- and over R the average of a chain with at least one iteration and a non-negative density is in [0,1] and the warning is printed exactly "
+              "below 1e-3 / above 1 - 1e-2 (C18_metropolis_average_is_probability, _2d_; a chain without iterations divides 0.0 by 0 -- NaN, no warning -- which is correspondence only). "
               "NOT theorems: the distributional clauses (Kolmogorov-Smirnov, chi-square, moments) — they are "
               "tested on the implementation with fixed seeds at significance 1e-9 (S4); that std::mt19937/generate_canonical produce the stream handed to the model is "
               "checked by the correspondence (a pure-Python MT19937 computes the uniforms of every case) and by the consumption count/next raw output comparison.")
 LEVEL_NOTE = ("Coq 8.16.1; theorems over R use the standard library's real-number axioms, counting theorems are axiom-free; std::mt19937 + std::uniform_real_distribution are "
-              "modelled as an explicit stream of canonical uniforms mapped by u*(b-a)+a (validated against libstdc++ on every case); Find_Root/Inv_Erf are modelled by copies of the "
+              "modelled as an explicit stream of canonical uniforms mapped by u*(b-a)+a (validated against libstdc++ on every case); since the seventh pass the stream itself is also a Gallina function of "
+              "the generator state (mt19937 and generate_canonical in C18_Model2.v, compared with libstdc++ on the seqg cases; the seq/seqn/seqh cases still take their uniforms from the Python MT19937); Find_Root/Inv_Erf are modelled by copies of the "
               "current code inside C18_Model.v; a canonical uniform <= 2^-55 makes Sample_Gauss return mean - 10 sqrt(2) sigma (Inv_Erf(-1) = -10), see ASSUMPTIONS")
 TOL = (1e-12, 0.0)
-TRUSTED = ["pure-Python MT19937 / generate_canonical in checks/C18.py (validated against libstdc++: its next raw output after every case is compared with the real generator's)",
+TRUSTED = ["pure-Python MT19937 / generate_canonical in checks/C18.py for the seq/seqn/seqh/seqw cases (validated against libstdc++: its next raw output after every case is compared with the real generator's; "
+           "on the seqg cases the generator is the extracted Gallina model itself and the Python one only feeds the S4 predicates)",
+           "the efficiency warning of Sample_Metropolis(_2D) is observed by reading back what the call wrote to file descriptor 2 (harness/C18.cpp run_seqw)",
            "nm -C -u on Statistics.o (and Numerics.o, Special_Functions.o) for the link-time randomness check"]
 ASSUMPTIONS = ["distributional clauses are statistical tests on the implementation (fixed seeds, significance 1e-9), not theorems",
                "a canonical uniform <= 2^-55 (2u-1 rounds to -1) makes Sample_Gauss return mean - 10 sqrt(2) sigma (Inv_Erf(-1) = -10 since the repair; it used to exit); modelled, proved "
@@ -943,7 +957,7 @@ def generate(rng, tier):
     #    (< 1e-3 || > 1.0 - 1e-2) -- proposal widths from "every candidate leaves the domain" to "every candidate is taken", constant densities
     #    whose average sits on the 0.99 threshold (one candidate in a hundred outside), i_max = 0 (0.0/0: no warning)
     def as_w(c, tags): return Case("seqw" + c.line[3:], tags)
-    for _ in range(R(150, 1500)):
+    for _ in range(R(90, 1500)):
         kind = rng.choice(["wide", "narrow", "mid", "thr99", "thr99", "empty", "any", "any2"])
         if kind == "empty":
             o = rng.choice([f"metro {hx(1.0)} 0 {rng.randint(1, 5)} 0 {flist(rng.choice([[], [-1.0, 2.0]]))} {T1['gauss'][0]}",
@@ -964,7 +978,7 @@ def generate(rng, tier):
             if d2: o = f"metro2 {hx(sg)} {hx(sg * rng.choice([1.0, 0.5]))} {s_} {th} {b_} {flist(dm)} {fx}"; n = 2 + 3 * im
             else: o = f"metro {hx(sg)} {s_} {th} {b_} {flist(dm)} {fx}"; n = 1 + 2 * im
         cs.append(as_w(seq_case(seed(), [o], n + 1, ()), ("seqw", kind, o.split()[0])))
-    for _ in range(R(20, 200)):
+    for _ in range(R(10, 200)):
         a, n1 = op_metro(); b, n2 = op_metro2(); ops = [a, b] if rng.random() < 0.5 else [b, a]
         cs.append(as_w(seq_case(seed(), ops, n1 + n2 + 1, ()), ("seqw", "two-calls")))
     # G. (seventh pass) the generator inside the model: std::mt19937 (seeding, twist, tempering) and std::generate_canonical as Gallina functions;
@@ -972,7 +986,7 @@ def generate(rng, tier):
     def as_g(c, n, tags):
         t = c.line.split(); ns = int(t[2]); k = 3 + ns; nu = int(t[k])
         return Case(" ".join(["seqg", str(n)] + t[1:k] + ["0"] + t[k + 1 + nu:]), tags)
-    for _ in range(R(150, 1200)):
+    for _ in range(R(80, 1200)):
         K = rng.choice([1, 1, 2, 3, 5]); ops = []; n = 0
         for _k in range(K):
             name, f = rng.choice(singles)
